@@ -136,3 +136,11 @@ claim("C08", ENGINE_A + "; enum oracle (carrier, value table, A-DYN dynamic-type
       "typed constant per value, that wrapped enums marshal the bare value, that both unmarshalers agree and that the file type-checks. Two known findings (sized-int enums reject everything; untyped "
       "enum behind a reference is not enforced). reflect.DeepEqual on float representations is not decided.",
       "as C01", "DESIGN.md §2 C08")
+
+claim("C11", ENGINE_A + "; anyOf oracle (A-ANYOF), allOf specification on a modelled mergo merge, B-REFCACHE scope rule, B-ERR instances",
+      "Decides for anyOf with 1..4 object branches (root and property, plus map-only branches) that the merged type tries every branch type once, fails iff all failed (threshold = number of branches), "
+      "every branch type has the called unmarshaler and enforces its own required/constraints, and the merged type exposes the union of properties; for allOf (2..4 branches, disjoint and overlapping "
+      "properties, a constraint-only branch adding required, a referenced branch; root and property) that the single emitted struct is the specification's merge: union of properties, conjunction of the "
+      "constraints of a property declared twice, union of required. The mergo merge itself is a stated model (options WithAppendSlice / WithTransformers / WithoutDereference understood; any other is "
+      "undecided). The raw-$ref resolution cache must be per file; unresolvable branch references are errors. One known finding (same keyword in two branches: first wins).",
+      "as C06; fidelity of the mergo model", "DESIGN.md §2 C11")
